@@ -4,12 +4,17 @@
 //                                      ScriptMaster::ExecuteThread(script, event, label) is called
 //                                      (label = "go" when lbl=1, a missing label when lbl=0).  The
 //                                      Event becomes the next record.
-//            prog = steps ',' final    steps: w<d> wait d ms | p<d> pause, a helper thread resumes
-//                                      this thread after d ms
-//                                      final: e<val> end <literal> | r<j> end local.p<j> | x end |
+//            prog = level ('/' level)*  one thread each: the host-started thread, then the sub-thread
+//                                      started by the level before it with `local.sr = thread s<i>`
+//            level = steps ',' final   steps: w<d> wait d ms | p<d> pause, a helper thread resumes
+//                                      this thread after d ms | t the sub-thread is started here
+//                                      final: e<val> end <literal> | r<j> end local.p<j> | L end local.sr
+//                                      (the sub-thread's result, possibly still pending) | x end |
 //                                      o fall off the end | k<d> pause, a helper deletes the thread
 //                                      after d ms | q<d> wait 50 ms, a helper deletes the thread
-//                                      after d ms | h pause for ever
+//                                      after d ms | h pause for ever | S `local delete` (the thread deletes
+//                                      itself while it executes) | K<n> it starts a thread that (n levels
+//                                      deep) deletes it | N it is deleted by an endon that a callee triggers
 //            args = tok,tok,.. | -     tok: n NIL | i<k> | f<k> | s<k> | z NULL | l<k> listener |
 //                                      v<k> vector | a<k> array | c<k> const array
 //         Y <rid>        copy the record (Event copy constructor): next record
@@ -169,14 +174,21 @@ static std::vector<std::string> split(const std::string& s, char sep)
 
 static std::string waitText(int ms) { char b[64]; std::snprintf(b, sizeof b, "wait %.3f\n", ms / 1000.0); return b; }
 
-static std::string program(int np, const std::string& prog)
+// one thread of the call: level 0 is the host-started thread (label go), level i > 0 the sub-thread s<i>
+static std::string levelBody(const std::string& lvl, int index, bool hasNext, std::string& helpers, int& nh)
 {
-    std::string helpers, body, pre;
-    int nh = 0;
-    for (const std::string& st : split(prog, ',')) {
+    std::string body, pre;
+    bool spawned = false, ended = false;
+    auto spawnText = [&]() { spawned = true; return hasNext ? "local.sr = thread s" + std::to_string(index + 1) + "\n" : std::string(); };
+    std::vector<std::string> toks = split(lvl, ',');
+    bool hasT = false;
+    for (const std::string& st : toks) if (st == "t") hasT = true;
+    if (!hasT) body += spawnText();            // no position given: the sub-thread is started first
+    for (const std::string& st : toks) {
         const int d = st.size() > 1 ? std::atoi(st.c_str() + 1) : 0;
         const std::string hn = "h" + std::to_string(nh);
         switch (st[0]) {
+        case 't': body += spawnText(); break;
         case 'w': body += waitText(d); break;
         case 'p':
             helpers += hn + " local.t:\n" + waitText(d) + "local.t wait 0\nend\n";
@@ -186,27 +198,62 @@ static std::string program(int np, const std::string& prog)
         case 'k':
             helpers += hn + " local.t:\n" + waitText(d) + "local.t delete\nend\n";
             body += "thread " + hn + " local\npause\nend 99\n";
-            ++nh;
+            ++nh; ended = true;
             break;
         case 'q':
             helpers += hn + " local.t:\n" + waitText(d) + "local.t delete\nend\n";
             body += "thread " + hn + " local\n" + waitText(50) + "end 99\n";
-            ++nh;
+            ++nh; ended = true;
             break;
-        case 'h': body += "pause\nend 98\n"; break;
-        case 'e': { const std::string lit = literal(st.substr(1), pre); body += pre + "end " + lit + "\n"; break; }
-        case 'r': body += "end local.p" + std::to_string(d) + "\n"; break;
-        case 'x': body += "end\n"; break;
-        case 'o': break;
+        case 'h': body += "pause\nend 98\n"; ended = true; break;
+        case 'S': body += "local delete\nend 97\n"; ended = true; break;          // deletes itself while executing
+        case 'K': {                                                                 // deleted by a thread it starts (depth d)
+            helpers += hn + " local.t:\nlocal.t delete\nend\n";
+            std::string callee = hn;
+            for (int i = 1; i < (d < 1 ? 1 : d); ++i) {
+                ++nh;
+                const std::string outer = "h" + std::to_string(nh);
+                helpers += outer + " local.t:\nthread " + callee + " local.t\nend\n";
+                callee = outer;
+            }
+            body += "thread " + callee + " local\nend 96\n";
+            ++nh; ended = true;
+            break;
+        }
+        case 'N':                                                                   // deleted by an endon that a callee triggers
+            helpers += hn + " local.o:\nlocal.o notify \"stop\"\nlocal.o delete\nend\n";
+            body += "local.lst = local CreateListener\nlocal.lst endon \"stop\"\nthread " + hn + " local.lst\nend 95\n";
+            ++nh; ended = true;
+            break;
+        case 'e': { const std::string lit = literal(st.substr(1), pre); body += pre + "end " + lit + "\n"; ended = true; break; }
+        case 'r': body += "end local.p" + std::to_string(d) + "\n"; ended = true; break;
+        case 'L': body += "end local.sr\n"; ended = true; break;
+        case 'x': body += "end\n"; ended = true; break;
+        case 'o': if (index > 0) { body += "end\n"; ended = true; } break;   // only the last label can fall off the end
         default: break;
         }
+        if (ended) break;
     }
-    std::string src = "never:\nend\n" + helpers + "go";
+    if (!ended && index > 0) body += "end\n";
+    return body;
+}
+
+static std::string program(int np, const std::string& prog)
+{
+    std::string helpers, subs;
+    int nh = 0;
+    std::vector<std::string> levels = split(prog, '/');
+    if (levels.empty()) levels.push_back("o");
+    std::vector<std::string> bodies;
+    for (size_t i = 0; i < levels.size(); ++i)
+        bodies.push_back(levelBody(levels[i], int(i), i + 1 < levels.size(), helpers, nh));
+    for (size_t i = levels.size(); i-- > 1;) subs += "s" + std::to_string(i) + ":\n" + bodies[i];
+    std::string src = "never:\nend\n" + helpers + subs + "go";
     for (int i = 1; i <= np; ++i) src += " local.p" + std::to_string(i);
     src += ":\n";
     for (int i = 1; i <= np; ++i)
         src += "println \"P\" " + std::to_string(i) + " (typeof local.p" + std::to_string(i) + ") local.p" + std::to_string(i) + "\n";
-    src += body;
+    src += bodies[0];
     return src;
 }
 
